@@ -78,14 +78,14 @@ package dispatch
 // per piece, and a peer bitfield exactly as long as the torrent.
 
 //@ specfunc dwf(d *Dispatcher) bool = d != nil && d.torrent != nil && d.torrent.Torrent != nil && len(d.numPeersByPiece) == d.torrent.Torrent.npieces && d.torrent.Torrent.npieces <= 1099511627776 && mshape(d.pieceRequestManager) && d.netevents != nil
-//@ specfunc pwf(d *Dispatcher, p *peer) bool = p != nil && p.bitfield != nil && p.bitfield.b != nil && p.bitfield.b.len == d.torrent.Torrent.npieces && p.messages != nil && p.pstats != nil && p.clk != nil
+//@ specfunc pwf(d *Dispatcher, p *peer) bool = p != nil && p.bitfield != nil && p.bitfield.b != nil && p.bitfield.b.len == d.torrent.Torrent.npieces && p.bitfield.b.clean && p.messages != nil && p.pstats != nil && p.clk != nil
 
 //@ func syncBitfield.Set
 //@   requires s != nil && s.b != nil && i < s.b.len
 //@   nopanic
 
 //@ func syncBitfield.GetAllSet
-//@   requires s != nil && s.b != nil && s.b.len <= 1099511627776
+//@   requires s != nil && s.b != nil && s.b.len <= 1099511627776 && s.b.clean
 //@   nopanic
 //@   ensures in_range: forall k int :: 0 <= k && k < len(result) ==> result[k] < s.b.len
 //@   loop 0 invariant in_range: (forall k int :: 0 <= k && k < len(all) ==> all[k] < s.b.len) && (forall k int :: 0 <= k && k < len(buffer) ==> buffer[k] < s.b.len)
@@ -126,11 +126,13 @@ package dispatch
 
 // addPeer: the remote bitfield comes from the peer's handshake; its length is whatever the peer
 // sent. Counters are touched only for indices inside the torrent.
+// The bitfield comes from a handshake decoded by conn.unmarshalBitfield, which guarantees that no
+// bit at or beyond its length is set (b.clean).
 //@ func Dispatcher.addPeer
-//@   requires dwf(d) && b != nil && messages != nil
+//@   requires dwf(d) && b != nil && b.clean && messages != nil
 //@   nopanic
 //@   modifies *
-//@   ensures result1 == nil ==> result0 != nil && result0.bitfield != nil && result0.bitfield.b != nil && result0.bitfield.b.len == d.torrent.Torrent.npieces
+//@   ensures result1 == nil ==> result0 != nil && result0.bitfield != nil && result0.bitfield.b != nil && result0.bitfield.b.len == d.torrent.Torrent.npieces && result0.bitfield.b.clean
 //@   loop 0 invariant idx: 0 - 1 <= rangeindex && rangeindex <= 281474976710656 && dwf(d)
 
 //@ func Dispatcher.removePeer
